@@ -23,7 +23,7 @@ for m in [".", "plugins/contrib"]:
 missing = sorted(stable - passed)
 # tests that assert wall-clock bounds / metrics are flaky on a loaded machine: re-run the packages of
 # missing tests alone (up to twice) before calling them missing
-for attempt in range(2):
+for attempt in range(4):
     if not missing: break
     pkgs = sorted({k.split("::")[0] for k in missing})
     for pkg in pkgs:
